@@ -445,7 +445,8 @@ def rule_runnable_exists(ctx):
             zero = len(ro) == 1 and const_eval(next(iter(ro))) == 0
             ok = m is not None and zero and m[0] == ("arg", 1) and m[1] == (c["WAKE_MASK"] | c["CLOSED"])
             conds = [mask_cmp(x) for x in b.conditions(r)]
-            ok = ok and any(x is not None and x[0] == "!=" and x[1] == ("arg", 1) and x[2] == c["POLLING"] and x[3] == 0 for x in conds)
+            # `state & POLLING != 0` or the equivalent `state & POLLING == POLLING`
+            ok = ok and _bit_implied([x for x in conds if x is not None and x[1] == ("arg", 1)], c["POLLING"], 1)
     ctx.ob("runnable-exists-definition", ok,
            "runnable_exists(state) is (state & POLLING != 0) && (state & (WAKE_MASK | CLOSED) != 0): a cancelled task that is still being "
            "polled (CLOSED|POLLING, wake count already reset) is still owned by its Runnable", sites or [b.name])
